@@ -13,8 +13,18 @@ def script(features, r):
     steps = [("src", bl.gen_snapshot(r, features=features), "initial"), ("build",), ("build",)]
     snap = steps[0][1]
     for _ in range(3):
-        kind = r.choice(["edit", "edit", "wipe", "taint"])
-        if kind == "edit":
+        kind = r.choice(["edit", "edit", "wipe", "taint", "fault-blob", "fault-results"])
+        if kind == "fault-blob":
+            # cache fault while dependency outputs are being loaded: a blob is lost, the outputs are wiped (fresh checkout),
+            # some target is edited so that its dependants' commands have to run and need the lost output re-made
+            steps.append(("dropblob", r.below(1000)))
+            steps.append(("wipe", r.below(1000)))
+            snap, why = bl.edit_snapshot(r, snap)
+            steps.append(("src", snap, why))
+        elif kind == "fault-results":
+            steps.append(("dropresults",))
+            steps.append(("wipe", r.below(1000)))
+        elif kind == "edit":
             snap, why = bl.edit_snapshot(r, snap)
             steps.append(("src", snap, why))
         elif kind == "wipe":
@@ -35,6 +45,21 @@ def apply(h, steps, mode):
             h.build(cfg)
         elif st[0] == "taint":
             h.taint(st[1])
+        elif st[0] == "dropresults":
+            h.drop_results()
+        elif st[0] == "dropblob-of":
+            h.drop_blob(st[1], st[2])
+        elif st[0] == "wipe-all":
+            for i, n in enumerate(h.snap["nodes"]):
+                if n["k"] == "t":
+                    for k in range(len(n["outs"])):
+                        h.perturb(i, k, "delete")
+        elif st[0] == "dropblob":
+            rr = vlib.Rng(st[1])
+            cands = [(i, k) for i, n in enumerate(h.snap["nodes"]) if n["k"] == "t" for k, o in enumerate(n["outs"]) if o[0] == "file"]
+            if cands:
+                i, k = rr.choice(cands)
+                h.drop_blob(i, k)
         elif st[0] == "wipe":
             # every output is deleted (a fresh checkout): minimal mode must still give each executing command its dependency outputs
             rr = vlib.Rng(st[1])
@@ -43,6 +68,16 @@ def apply(h, steps, mode):
                     for k in range(len(n["outs"])):
                         if rr.chance(2, 3):
                             h.perturb(i, k, "delete")
+
+
+def sub_multiset(xs, ys):
+    ys = list(ys)
+    for x in xs:
+        if x in ys:
+            ys.remove(x)
+        else:
+            return False
+    return True
 
 
 def run(out, tier):
@@ -55,6 +90,18 @@ def run(out, tier):
         scripts.append(("clean", script(clean, r)))
     for k in range(n):
         scripts.append(("full", script(full, r)))
+    # cache fault while dependency outputs are being loaded, on purpose: c depends on [a, b] (and [b, a]); everything is built and
+    # cached; the blob of ONE dependency is lost; the workspace is wiped; c's command changes so that it has to run: both modes have
+    # to re-make the lost output AND put the other dependency's output in place before c's command starts
+    def T(name, deps, salt="v0"):
+        return {"k": "t", "pkg": "p", "name": name, "salt": salt, "ins": [], "glob": None, "excl": [], "outs": [("file", name + ".txt")],
+                "deps": deps, "fp": {}, "nocache": False, "multi": False, "beh": "n", "check": False, "comment": ""}
+    for order in ([0, 1], [1, 0]):
+        for lost in (0, 1):
+            s1 = {"nodes": [T("a", []), T("b", []), T("c", order)], "files": {}}
+            s2 = {"nodes": [T("a", []), T("b", []), T("c", order, "v1")], "files": {}}
+            scripts.append(("witness-fault", [("src", s1, "initial"), ("build",), ("dropblob-of", lost, 0), ("wipe-all",),
+                                              ("src", s2, "command (output-relevant) of //p:c"), ("build",), ("build",)]))
     plans = []
     for name, steps in scripts:
         for mode in ("all", "min"):
@@ -65,12 +112,23 @@ def run(out, tier):
     evals = 0
     for k in range(0, len(batch), 2):
         (na, ha, _, ma), (nm, hm, _, mm) = batch[k], batch[k + 1]
+        # builds that follow a cache fault: mode all has to re-execute every selected target whose outputs it cannot restore,
+        # mode minimal only those an executing dependant needs -- "the same set of commands" is then demanded as
+        # minimal's commands being a sub-multiset of all's (exit status and materialised bytes compared as always)
+        faulted, seen = [], False
+        for o in hm.ops:
+            if o[0] in ("D", "R"):
+                seen = True
+            elif o[0] == "B":
+                faulted.append(seen)
         for bi, (a, b) in enumerate(zip(ha.builds, hm.builds)):
             evals += 1
             predicted = bi < len(mm) and sorted(b["starts"]) == mm[bi]["exec"] and (b["rc"] == 0) == mm[bi]["ok"]
             if (a["rc"] == 0) != (b["rc"] == 0):
                 hc.decide(out, "C15", findings, hm, "build %d: mode all exits %s, mode minimal exits %s (%s)" % (bi, a["rc"], b["rc"], b["stderr"][-200:]),
                           predicted, GUARDS)
+            elif bi < len(faulted) and faulted[bi] and sub_multiset(b["starts"], a["starts"]):
+                pass
             elif sorted(a["starts"]) != sorted(b["starts"]):
                 hc.decide(out, "C15", findings, hm, "build %d executes %s under all but %s under minimal" % (bi, sorted(a["starts"]), sorted(b["starts"])),
                           predicted, GUARDS)
